@@ -117,6 +117,11 @@ func Project(x, a, b Point) Point {
 // This requires that A and B are distinct.
 func DistanceFraction(x, a, b Point) float64 {
 	d0 := x.Angle(a.Vector)
+	if d0 == 0 {
+		// X is at A (also when A and B are so close that both angles underflow,
+		// which would otherwise give 0/0).
+		return 0
+	}
 	d1 := x.Angle(b.Vector)
 	return float64(d0 / (d0 + d1))
 }
